@@ -555,6 +555,14 @@ def oracle(c, ci, k, pre, o):
                 keys.add("error-names-wrong-cores")
             for key in sorted(keys):
                 found.append((key, "SpiNNakerLoadingError names %r, not loaded are %r" % (sorted(told), sorted(missing))))
+        # a core this very call has loaded (it now holds its binary under the app id, started or waiting, and
+        # did not before) must not be named
+        wrongly = sorted(core for core in told & set(named)
+                         if post[core][1:] == [app, c["binaries"][named[core]]] and post[core][0] in (WAIT, RUN)
+                         and before[core] != post[core])
+        if wrongly and not any(key == "error-names-wrong-cores" for key, _ in found):
+            found.append(("error-names-wrong-cores", "SpiNNakerLoadingError names %r, which this call has loaded"
+                          % wrongly[:6]))
     # ---- no core that was not requested is loaded
     started = ok and not wait
     for core, s in sorted(post.items()):
